@@ -60,7 +60,7 @@ def checkFix (case impl : List String) : List Fail := Id.run do
         -- refusal: model must refuse too; for SLIT in-range pairs must be accepted (C12)
         match st with
         | some _ =>
-          fails := fails ++ [⟨"corr", layoutTag ++ ",C18", "unexpected-panic", s!"{tname} obs#{i}: impl panics, model does not"⟩]
+          fails := fails ++ [⟨"corr", layoutTag, "unexpected-panic", s!"{tname} obs#{i}: impl panics, model does not"⟩]
         | none => pure ()
         if t = .slit ∧ i > 0 then
           match ops[i - 1]? with
